@@ -208,10 +208,31 @@ func checkC19(c *harness.Check) {
 	// U+0171='q'; same low 16 bits: U+10031='1', U+10061='a')
 	sym := []string{"a", "h", "e", "1", "8", "9", "0", "q", "k", "p", "x", " ", "é", "٣", "\x00", "A", "Q", "-", "ı", "ĸ", "š", "Ũ", "ű", "\U00010031", "\U00010061"}
 	maxLen := 5
-	c.Rule = fmt.Sprintf("(a) every string of <= %d symbols over %q into ParseMove and ParseSquareStr; (b) every FEN whose board field is a word of <= %d tokens over {K,k,p,1,3,8,9,0,/,arabic-3,x, 8/8/8/8, 8/8/8/8/8/8/8/7, 9x28 (run-length macros: the square cursor is a small unsigned integer)} with canonical other fields, and valid boards crossed with field alphabets for side/castling/e.p./clocks; (c) every single (thorough: and double) edit - replace, insert, delete over a 30-symbol alphabet - of %d valid FENs; (d) for every BFS node (depth<=1) of the seed corpus all 64x64x(none,q,r,b,n,k,p) move strings + case/length variants through Engine.Move: accepted iff reference-legal, successor FEN standard, state snapshot unchanged on rejection (positions one move from a seed are set up by PLAYING that move, so the engine has a history to lose). (e) on engines that have a game: Reset with every single edit of two FENs that does not decode, is rejected and leaves the game as it was (and so does a refused TakeBack at the root). Oracle for decoding: no panic; error or non-nil self-consistent position whose re-encoding decodes to the same position. Late in a game: after 2..5 rounds of a knight shuffle from the start position (third, fourth and FIFTH occurrence) every legal move is accepted by Engine.Move and leads where it should. distinct_nontrivial = accepted inputs", maxLen, sym, c.Pick(5, 6), 10)
+	c.Rule = fmt.Sprintf("(a) every string of <= %d symbols over %q into ParseMove and ParseSquareStr, and every string of <= 5 symbols over 16 symbols incl. the characters whose other-case form has another UTF-8 length (Kelvin sign, dotted capital I, long s, Ohm, Angstrom, capital sharp s, A/T with stroke); (b) every FEN whose board field is a word of <= %d tokens over {K,k,p,1,3,8,9,0,/,arabic-3,x, 8/8/8/8, 8/8/8/8/8/8/8/7, 9x28 (run-length macros: the square cursor is a small unsigned integer)} with canonical other fields, and valid boards crossed with field alphabets for side/castling/e.p./clocks; (c) every single (thorough: and double) edit - replace, insert, delete over a 30-symbol alphabet - of %d valid FENs; (d) for every BFS node (depth<=1) of the seed corpus all 64x64x(none,q,r,b,n,k,p) move strings + case/length variants through Engine.Move: accepted iff reference-legal, successor FEN standard, state snapshot unchanged on rejection (positions one move from a seed are set up by PLAYING that move, so the engine has a history to lose). (e) on engines that have a game: Reset with every single edit of two FENs that does not decode, is rejected and leaves the game as it was (and so does a refused TakeBack at the root). Oracle for decoding: no panic; error or non-nil self-consistent position whose re-encoding decodes to the same position. Late in a game: after 2..5 rounds of a knight shuffle from the start position (third, fourth and FIFTH occurrence) every legal move is accepted by Engine.Move and leads where it should. distinct_nontrivial = accepted inputs", maxLen, sym, c.Pick(5, 6), 10)
 
 	// (a) short strings into the two parsers
 	var cc classCap
+	// (a') ... and over the characters whose upper/lower-case form has ANOTHER LENGTH in UTF-8 (Kelvin
+	// sign -> k, dotted capital I, long s, Ohm, Angstrom, capital sharp s shrink; A/T with stroke grow):
+	// a parser that measures one form and indexes the other walks off the end
+	fold := []string{"a", "e", "h", "2", "4", "8", "q", "k", "\u212a", "\u0130", "\u017f", "\u2126", "\u212b", "\u1e9e", "\u023a", "\u023e"}
+	nf := len(fold)
+	harness.Parallel(nf*nf, func(i int) {
+		var gen func(s string, k int)
+		gen = func(s string, k int) {
+			c.Evaluations.Add(1)
+			if msg := parseTotal(s); msg != "" {
+				c.Violation(cc.sig("C19/parse", fmt.Sprintf("%q", s)), msg+fmt.Sprintf(" on %q", s), "C19/parse", s)
+			}
+			if k == 0 {
+				return
+			}
+			for _, a := range fold {
+				gen(s+a, k-1)
+			}
+		}
+		gen(fold[i/nf]+fold[i%nf], 3)
+	})
 	n1 := len(sym)
 	harness.Parallel(n1*n1, func(i int) {
 		prefix := sym[i/n1] + sym[i%n1]
